@@ -74,6 +74,8 @@ func checkCLI(cfg *propCfg, tier string, seed uint64, scratch string, start time
 	var evals, nontrivial int64
 	exhaustive := true
 	var infraMsg string
+	var skippedMsg string
+	skipped := 0
 	shrinking := 0
 	next := uint64(0)
 	workers := runtime.NumCPU()
@@ -100,6 +102,17 @@ func checkCLI(cfg *propCfg, tier string, seed uint64, scratch string, start time
 					}
 					mu.Unlock()
 					return
+				}
+				if out.Skipped != "" {
+					// not judged: a tree that streams a large file in tiny writes exceeds the
+					// operation budget of a child on that one scenario; the others still count
+					skipped++
+					if skippedMsg == "" {
+						skippedMsg = fmt.Sprintf("case %d: %s", i, out.Skipped)
+					}
+					stats["scenarios_not_judged_operation_budget_exhausted"]++
+					mu.Unlock()
+					continue
 				}
 				evals += int64(out.Evals)
 				nontrivial += int64(out.Nontrivial)
@@ -172,6 +185,9 @@ func checkCLI(cfg *propCfg, tier string, seed uint64, scratch string, start time
 	}
 	if infraMsg != "" {
 		infra("%s", infraMsg)
+	}
+	if skipped > 3 && skipped*50 > int(next) {
+		infra("%d of %d scenarios could not be judged; the first: %s", skipped, next, skippedMsg)
 	}
 	so := shardOut{res: &shardResult{Prop: cfg.ID, Cases: evals, Stats: stats, DistinctN: nontrivial, Samples: samples, Violations: viols, Exhaustive: exhaustive}}
 	stats["scenarios_generated"] = int64(next)
